@@ -61,6 +61,7 @@ package xixi_kv
 //@   ensures [older-only-rotated] forall id :: {indom(db.olderFiles, id)} has(db.olderFiles, id) ==> old(has(db.olderFiles, id)) || id == old(db.activeFile.ID)
 //@   ensures [only-the-sealed-file-enters] has(db.olderFiles, old(db.activeFile.ID)) ==> db.olderFiles[old(db.activeFile.ID)] == old(db.activeFile)
 //@   ensures [counter] result == nil ==> db.bytesWrite == 0
+//@   ensures [a-failed-rotation-keeps-the-counter-or-has-flushed] result != nil ==> db.bytesWrite == old(db.bytesWrite) || db.activeFile.ReadWriter.durable == db.activeFile.ReadWriter.size
 //@   ensures [err-keeps-active] result != nil ==> db.activeFile == old(db.activeFile)
 //@   ensures [foreign-errors] !engineErr(result)
 //@   modifies db.activeFile, db.olderFiles[*], db.bytesWrite, db.activeFile.ReadWriter.durable
@@ -78,6 +79,7 @@ package xixi_kv
 //@   ensures [always]  result1 == nil && db.options.SyncStrategy == Always ==> db.activeFile.ReadWriter.durable == db.activeFile.ReadWriter.size
 //@   ensures [threshold] result1 == nil && db.options.SyncStrategy == Threshold ==> db.bytesWrite < db.options.BytesPerSync
 //@   ensures [counter-exact] result1 == nil ==> (db.bytesWrite == 0 && db.activeFile.ReadWriter.durable == db.activeFile.ReadWriter.size) || db.bytesWrite == (db.activeFile == old(db.activeFile) ? old(db.bytesWrite) : 0) + result0.Size
+//@   ensures [a-failed-flush-keeps-the-counter] result1 != nil && db.activeFile == old(db.activeFile) ==> db.activeFile.ReadWriter.durable == db.activeFile.ReadWriter.size || (db.bytesWrite >= old(db.bytesWrite) && (db.activeFile.ReadWriter.size > old(db.activeFile.ReadWriter.size) ==> db.bytesWrite > old(db.bytesWrite)))
 //@   ensures [rotate-flushed] db.activeFile != old(db.activeFile) ==> old(db.activeFile).ReadWriter.durable == old(db.activeFile).ReadWriter.size && has(db.olderFiles, old(db.activeFile.ID)) && db.olderFiles[old(db.activeFile.ID)] == old(db.activeFile) && db.activeFile.ID == old(db.activeFile.ID) + 1
 //@   ensures [limit]   result1 == nil ==> db.activeFile.ReadWriter.size <= db.options.DataFileSize || db.activeFile != old(db.activeFile)
 //@   ensures [older-only-rotated] forall id :: {indom(db.olderFiles, id)} has(db.olderFiles, id) ==> old(has(db.olderFiles, id)) || (id == old(db.activeFile.ID) && (db.activeFile != old(db.activeFile) || result1 != nil))
@@ -221,6 +223,7 @@ package xixi_kv
 //@   ensures [active] b.db.activeFile == old(b.db.activeFile) || (fresh(b.db.activeFile) && fresh(b.db.activeFile.ReadWriter) && fresh(b.db.activeFile.headerBuf))
 //@   ensures [locked]  b.db.mu.heldW && b.db == old(b.db) && b.committed == old(b.committed) && b.batchID == old(b.batchID)
 //@   ensures [durable-if-sync] result == nil && b.options.Sync && old(len(b.staged)) > 0 ==> b.db.activeFile.ReadWriter.durable == b.db.activeFile.ReadWriter.size
+//@   ensures [threshold-counter-untouched-unless-rotated-or-flushed] b.db.bytesWrite == old(b.db.bytesWrite) || b.db.activeFile != old(b.db.activeFile) || b.db.activeFile.ReadWriter.durable == b.db.activeFile.ReadWriter.size
 //@   ensures [id-room] result == nil ==> b.db.activeFile.ID <= old(b.db.activeFile.ID) + 1
 //@   ensures [foreign-errors] !engineErr(result)
 //@   at (*datafile.DataFile).WriteStagedLogRecord assert [tagged] arg1.BatchID == b.batchID && arg1.BatchID > 0
@@ -307,6 +310,7 @@ package xixi_kv
 //@   ensures [durable-if-sync] result == nil && !old(b.committed) && b.options.Sync && old(len(b.staged)) > 0 ==> b.db.activeFile.ReadWriter.durable == b.db.activeFile.ReadWriter.size
 //@   ensures [empty-batch-writes-nothing] !old(b.committed) && old(len(b.staged)) == 0 ==> result == nil && b.db.activeFile == old(b.db.activeFile) && b.db.activeFile.ReadWriter.size == old(b.db.activeFile.ReadWriter.size)
 //@   at (*datafile.DataFile).WriteLogRecord assert [sealed-carries-batch-id] arg1.Type == datafile.LogRecordBatchFinished && arg1.BatchID == b.batchID && arg1.BatchID > 0 && arg0 == b.db.activeFile
+//@   checks [a-failed-seal-is-reported] result == nil && called("(*datafile.DataFile).WriteLogRecord") ==> result_of("(*datafile.DataFile).WriteLogRecord", 1) == nil
 //@   at (*datafile.DataFile).WriteLogRecord assert [seal-after-records] len(b.staged) == 0 && len(b.db.activeFile.bufferedWrites) == 0 && b.db.mu.heldW
 //@   modifies b.committed, b.mu.heldW, b.db.mu.heldW, b.staged, b.stageIndex, b.cachedDataSize, b.staged[*].BatchID, b.staged[*].Key, b.staged[*].Value, b.staged[*].Type, b.db.activeFile, b.db.olderFiles[*], b.db.totalSize, b.db.bytesWrite, b.db.reclaimSize, b.db.logRecordHeader[*], b.db.activeFile.lastBlockID, b.db.activeFile.lastBlockSize, b.db.activeFile.headerBuf[*], b.db.activeFile.bufferedWrites, b.db.activeFile.bufferedWrites[*], b.db.activeFile.ReadWriter.size, b.db.activeFile.ReadWriter.data, b.db.activeFile.ReadWriter.writes, b.db.activeFile.ReadWriter.durable, b.db.index.model, b.db.index.count, b.db.index.live
 
